@@ -527,33 +527,43 @@ pub fn run_sharded(
     }
 }
 
-/// Simple deterministic RNG for the non-proptest (enumerative / sampling) parts.
-pub struct SplitMix(pub u64);
+/// Simple deterministic RNG for the non-proptest (enumerative / sampling) parts. Methods take
+/// `&self` (interior mutability) so that draws can be nested in one expression.
+pub struct SplitMix(std::cell::Cell<u64>);
 impl SplitMix {
     pub fn new(seed: u64, salt: u64) -> Self {
-        SplitMix(seed ^ salt.wrapping_mul(0x9E3779B97F4A7C15))
+        SplitMix(std::cell::Cell::new(seed ^ salt.wrapping_mul(0x9E3779B97F4A7C15)))
     }
-    pub fn next(&mut self) -> u64 {
-        self.0 = self.0.wrapping_add(0x9E3779B97F4A7C15);
-        let mut z = self.0;
+    pub fn perturb(&self, x: u64) {
+        self.0.set(self.0.get() ^ x);
+    }
+    pub fn next(&self) -> u64 {
+        let s = self.0.get().wrapping_add(0x9E3779B97F4A7C15);
+        self.0.set(s);
+        let mut z = s;
         z = (z ^ (z >> 30)).wrapping_mul(0xBF58476D1CE4E5B9);
         z = (z ^ (z >> 27)).wrapping_mul(0x94D049BB133111EB);
         z ^ (z >> 31)
     }
-    pub fn below(&mut self, n: u64) -> u64 {
+    pub fn below(&self, n: u64) -> u64 {
         if n == 0 {
             0
         } else {
             self.next() % n
         }
     }
-    pub fn bytes(&mut self, n: usize) -> Vec<u8> {
+    pub fn bytes(&self, n: usize) -> Vec<u8> {
         let mut v = Vec::with_capacity(n);
         while v.len() < n {
             v.extend_from_slice(&self.next().to_le_bytes());
         }
         v.truncate(n);
         v
+    }
+    /// Random byte string of random length below `max_len`.
+    pub fn blob(&self, max_len: u64) -> Vec<u8> {
+        let l = self.below(max_len) as usize;
+        self.bytes(l)
     }
 }
 
@@ -639,12 +649,4 @@ pub fn inconclusive(ev: &Evidence, why: &str) -> ! {
     eprintln!("INCONCLUSIVE property={}: {why}", ev.property);
     ev.write(0);
     std::process::exit(2);
-}
-
-impl SplitMix {
-    /// Random byte string of random length below `max_len`.
-    pub fn blob(&mut self, max_len: u64) -> Vec<u8> {
-        let l = self.below(max_len) as usize;
-        self.bytes(l)
-    }
 }
